@@ -30,6 +30,11 @@
     of integers); the former counterexamples are `C10_str_falsy_alpha_fixed_witness` and
     `C10_str_tracked_list_fixed_witness`.
     Kept as `C10_str_counterexample_qnoise_factor`: `qnoise_factor` is never printed.
+  * strengthening round 3 (seed C10-7): `C10_str_float_options_table` +
+    `C10_str_float_conversion_exact`: every statement that prints a float-valued option prints
+    EVERY float by `repr` (all digits) and denotes the float itself; readability of that text
+    (`Readable`) stays a per-instance decision: `C10_str_roundtrip_long_floats_partial` decides
+    it for every class × float option × 19 values with 7–15 significant digits.
   Model: QKV.Model.Parse / QKV.Model.Print.  This file holds ONLY property theorems.
 -/
 import QKV.Lemmas.Print
@@ -960,6 +965,123 @@ theorem C10_str_array_option_witness :
       = .ok ⟨"quantized_relu", [.int 8, .list [.int 120]], [], true⟩ := by
   decide +kernel
 
+/-! ### float-valued options are printed by `str(x)` — the full shortest repr, never a rounded text
+    (strengthening round 3, seed C10-7: `_po2_max_value_to_str` as `"{:g}".format(x)` keeps six
+    significant digits, `2**-9` printed `0.00195312`) -/
+
+/-- names of the options that take a float in some class (`qnoise_factor` is not printed at all) -/
+def floatOptionNames : List String :=
+  ["max_value", "alpha", "negative_slope", "relu_upper_bound", "threshold", "temperature", "u",
+   "relu_shift"]
+
+/-- the conversions through which `__str__` prints an option that may hold a float -/
+def Conv.keepsFloat : Conv → Bool
+  | .str | .alpha | .po2max | .np | .npRe | .intOrList => true
+  | _ => false
+
+/-- **no statement of any `__str__` shortens a float.**  Every statement of every class that
+    prints one of the float-valued options goes through a conversion that keeps floats
+    (`str(x)`, the quoted-if-string form, `_po2_max_value_to_str`, `str(np.array(x))`) — none
+    through `str(int(x))`, a constant text or a fixed-precision format. -/
+theorem C10_str_float_options_table (c : Cls) (s : FlagSpec) (hs : s ∈ posSpec c ++ kwSpec c)
+    (hn : s.name ∈ floatOptionNames) : Conv.keepsFloat s.conv = true := by
+  revert s
+  cases c <;> decide
+
+/-- **… and each such conversion prints EVERY float by `repr` and denotes the float itself**
+    (all rationals `q`, i.e. all binary64 values and all decimals): the text is `reprFloat q`
+    and the denoted value is `q` — except `_po2_max_value_to_str` on an integral value, which
+    prints the integer text of the SAME number (`4.0` → `4`).  The seeded `"{:g}"` helper
+    falsifies this at every `q` with more than six significant digits. -/
+theorem C10_str_float_conversion_exact (cv : Conv) (h : Conv.keepsFloat cv = true) (q : Rat) :
+    ∃ r, cv.apply (.float q) = .ok r ∧ r.1.pyEq (.float q) = true ∧
+      (r = (.float q, reprFloat q) ∨
+       (cv = .po2max ∧ q = (truncRat q : Rat) ∧ r = (.int (truncRat q), toString (truncRat q)))) := by
+  cases cv <;> simp only [Conv.keepsFloat, Bool.false_eq_true] at h
+  · exact ⟨_, rfl, PyVal.pyEq_refl _, Or.inl rfl⟩
+  · exact ⟨(.float q, reprFloat q), by simp [Conv.apply, alphaText, PyVal.isStr, PyVal.pyStr],
+      PyVal.pyEq_refl _, Or.inl rfl⟩
+  · exact ⟨(.float q, reprFloat q), by simp [Conv.apply, listOrScalar, PyVal.pyStr],
+      PyVal.pyEq_refl _, Or.inl rfl⟩
+  · by_cases hq : q = (truncRat q : Rat)
+    · refine ⟨(.int (truncRat q), toString (truncRat q)), ?_, ?_, Or.inr ⟨rfl, hq, rfl⟩⟩
+      · simp only [Conv.apply, po2MaxValue, PyVal.pyInt, PyVal.numVal]
+        rw [if_pos (by rw [beq_iff_eq]; exact hq)]
+      · simp only [PyVal.pyEq, PyVal.numVal]
+        rw [beq_iff_eq]; exact hq.symm
+    · refine ⟨(.float q, reprFloat q), ?_, PyVal.pyEq_refl _, Or.inl rfl⟩
+      simp only [Conv.apply, po2MaxValue, PyVal.pyInt, PyVal.numVal]
+      rw [if_neg (by rw [beq_iff_eq]; exact hq)]
+      rfl
+  · exact ⟨(.float q, reprFloat q), by simp [Conv.apply, alphaText, PyVal.isStr, PyVal.pyStr],
+      PyVal.pyEq_refl _, Or.inl rfl⟩
+  · exact ⟨(.float q, reprFloat q), by simp [Conv.apply, PyVal.pyStr], PyVal.pyEq_refl _, Or.inl rfl⟩
+
+/-- float values whose shortest repr needs 7–15 significant digits (inside the domain of
+    `reprFloat`): small powers of two, integers above 10^6, 7–10 digit decimals, values next to
+    the defaults 6.0 / 255.0 / 1.0, dyadic neighbours of √2 and √2/2, negative values -/
+def longFloats : List Rat :=
+  [1 / 512, 1 / 1024, 1 / 4096, 1 / 8192, 1048577, 3000001, 16777217, 2469135 / 2,
+   1234567 / 10000000, 12345678 / 100000000, 6000001 / 1000000, 25500001 / 100000,
+   7999999999 / 1000000000, 10000001 / 10000000, 11586 / 8192, 11585 / 8192, 11585 / 16384,
+   -1 / 512, -1234567 / 10000000]
+
+/-- `C10_str_roundtrip_complete` needs `Readable`: the text `reprFloat q` must be a float literal
+    of the grammar whose decimal value is `q` itself.  That is NOT proved for all `q` (general
+    readability of `reprFloat`: digits of `|q|·10^k`, zero padding, sign); it is DECIDED per
+    instance.  This is the decision for every class × every float option × every value of
+    `longFloats` that the constructor accepts: all hypotheses of the complete round trip hold, so
+    `get_quantizer(str(q))` has every constructor argument `==` the original's. -/
+theorem C10_str_roundtrip_long_floats_partial :
+    ∀ c ∈ Cls.all, ∀ o ∈ floatOptionNames, o ∈ paramNames c → ∀ v ∈ longFloats,
+      (∃ q, construct c [] [(o, .float v)] = .ok q) →
+        completeHyps c [] [(o, .float v)] = true := by
+  have h : (Cls.all.all fun c => floatOptionNames.all fun o =>
+      !(paramNames c).contains o || longFloats.all fun v =>
+        match construct c [] [(o, .float v)] with
+        | .error _ => true
+        | .ok _ => completeHyps c [] [(o, .float v)]) = true := by decide +kernel
+  intro c hc o ho hp v hv ⟨q, hq⟩
+  rw [List.all_eq_true] at h
+  have h1 := h c hc
+  rw [List.all_eq_true] at h1
+  have h2 := h1 o ho
+  rw [Bool.or_eq_true] at h2
+  rcases h2 with h2 | h2
+  · simp only [Bool.not_eq_true', List.contains_eq_mem, decide_eq_false_iff_not] at h2
+    exact absurd hp h2
+  · rw [List.all_eq_true] at h2
+    have h3 := h2 v hv
+    rw [hq] at h3
+    exact h3
+
+/-- the seed's failing inputs evaluated in the model: the bound is printed with all its digits in
+    the `max_value` slot and read back as the same number, under every rounding mode of its
+    consumer; an integral bound above 10^6 keeps its integer text (`"{:g}"` prints `3e+06`) -/
+theorem C10_str_po2_long_max_value_witness :
+    (let r := strTrip .quantized_po2 [("max_value", .float (1 / 512)), ("log2_rounding", .str "floor")]
+     text r = some "quantized_po2(8,0.001953125,log2_rounding='floor')" ∧
+       slot r "max_value" = some (.float (1 / 512))) ∧
+    (let r := strTrip .quantized_po2 [("max_value", .float (1234567 / 10000000))]
+     text r = some "quantized_po2(8,0.1234567)" ∧
+       slot r "max_value" = some (.float (1234567 / 10000000))) ∧
+    (let r := strTrip .quantized_relu_po2
+        [("max_value", .float 3000001), ("negative_slope", .float (1 / 8192))]
+     text r = some "quantized_relu_po2(8,3000001,0.0001220703125)" ∧
+       slot r "max_value" = some (.int 3000001) ∧
+       slot r "negative_slope" = some (.float (1 / 8192))) ∧
+    (let r := strTrip .quantized_po2
+        [("max_value", .float (11586 / 8192)), ("quadratic_approximation", .bool true)]
+     text r = some "quantized_po2(8,1.414306640625,quadratic_approximation=1)" ∧
+       slot r "max_value" = some (.float (11586 / 8192))) ∧
+    (let r := strTrip .quantized_ulaw [("u", .float (25500001 / 100000))]
+     text r = some "quantized_ulaw(8,0,0,255.00001)" ∧
+       slot r "u" = some (.float (25500001 / 100000))) ∧
+    (let r := strTrip .stochastic_ternary [("temperature", .float (7999999999 / 1000000000))]
+     text r = some "stochastic_ternary(temperature=7.999999999)" ∧
+       slot r "temperature" = some (.float (7999999999 / 1000000000))) := by
+  decide +kernel
+
 /-! ### kept: `qnoise_factor` is never printed (recorded finding, see notes/C10.md) -/
 
 /-- `qnoise_factor` is training-time state (a tensor under QAdaptiveActivation, a variable under
@@ -1051,5 +1173,19 @@ example : (¬ Kinded ⟨.quantized_bits, (params .quantized_bits).map fun p =>
 /-- `Typed` does exclude something: a fraction where a flag is expected (`str(int(0.5))` is "0") -/
 example : ¬ Typed ⟨.quantized_tanh, [("bits", .int 8), ("use_stochastic_rounding", .float (1 / 2)),
     ("symmetric", .bool false), ("use_real_tanh", .bool false)]⟩ := by decide +kernel
+
+/-- strengthening round 3: the hypotheses of `C10_str_roundtrip_long_floats_partial` are
+    satisfiable (a long max_value is accepted) and do exclude something (the constructor rejects
+    a negative bound and a slope that is not a power of two); the float-conversion theorem speaks
+    about a conversion that is NOT exact on floats too: `str(int(x))` — used for flags only, never
+    for an option of `floatOptionNames` (`C10_str_float_options_table`) — prints `0` for 0.5;
+    outside the domain of `reprFloat` (1/3, 2^-20) the model has no text: such values are judged
+    by the clause oracle only -/
+example : (construct .quantized_po2 [] [("max_value", .float (1 / 512))]).toBool = true ∧
+    (construct .quantized_po2 [] [("max_value", .float (-1 / 512))]).toBool = false ∧
+    (construct .quantized_relu [] [("negative_slope", .float (1234567 / 10000000))]).toBool = false ∧
+    Conv.keepsFloat .int = false ∧ Conv.int.apply (.float (1 / 2)) = .ok (.int 0, "0") ∧
+    reprFloat (1 / 3) = "<float>" ∧ reprFloat (1 / 1048576) = "<float>" ∧
+    reprFloat (1 / 512) = "0.001953125" := by decide +kernel
 
 end QKV.Props.C10
